@@ -129,6 +129,38 @@ PROPS = {
         trusted_base=["set-level network model (Model/Net.lean); scripted pubsub/direct channel/bitswap replace libp2p (runtime not modelled)"],
         assumptions=["blocks held by a connected peer are fetchable; no rejected entry, no cancelled request (boundary with C10/C11)"],
     ),
+    "C09": dict(
+        module="OrbitModel.Properties.C09",
+        theorems=["Orbit.C09.other_databases_untouched", "Orbit.C09.broadcast_changes_only_the_source",
+                  "Orbit.C09.published_under_own_address", "Orbit.C09.pinned_tree_cross_talk"],
+        families=[("multidb", 100, 3000, 10)],
+        corr_fields={"values", "heads", "idx", "len", "status"},
+        nontrivial=lambda lines: sum(1 for l in lines if l.startswith("opened ")) >= 1 and sum(1 for l in lines if l.startswith("ack ")) >= 2,
+        rule="2-4 databases of mixed types and write lists opened on the same 2-4 instances (default shared event bus); PRNG writes, manual syncs and announcement deliveries in one database at a time; every database on every peer is observed (contents, index, status, per-address store-event counters) after every step and must be unchanged unless it was the one operated on; every announcement's topic, address and entries must belong to one database; non-trivial = >= 2 databases and >= 2 writes",
+        trusted_base=["libp2p eventbus delivers every event to every subscriber of its type (modelled as broadcast)"],
+        assumptions=["cross-database effects are sampled 3 ms after each step (a late effect is attributed to the next step on another database)"],
+    ),
+    "C10": dict(
+        module="OrbitModel.Properties.C10",
+        theorems=["Orbit.C10.rejected_never_block", "Orbit.C10.valid_entries_of_a_mixed_batch_are_merged", "Orbit.C10.pinned_tree_blocks_valid"],
+        families=[("forge", 150, 4000, 10)],
+        corr_fields={"values", "heads", "idx", "len", "sync"},
+        nontrivial=lambda lines: any(l.startswith("op inject") and "," in l.split("heads=")[1].split()[0] for l in lines if "heads=" in l) or any("extra=" in l for l in lines),
+        rule="forged / tampered / foreign heads mixed with valid heads at either end of one announcement, or hidden behind a colluding writer's entry, by every route, in several announcements; then an honest re-announcement (every replica syncs from every other twice): every acknowledged valid write must be listed everywhere; non-trivial = a mixed announcement or a hidden forged ancestor",
+        trusted_base=["Model/Replicator.lean transition system (hand-written, validated end-to-end by the harness); liveness stated for the canonical fair scheduler, safety for every schedule"],
+        assumptions=[],
+    ),
+    "C11": dict(
+        module="OrbitModel.Properties.C11",
+        theorems=["Orbit.C11.no_hole_is_forgotten", "Orbit.C11.at_rest_means_complete", "Orbit.C11.later_request_completes",
+                  "Orbit.C11.at_most_two_requests", "Orbit.C11.unclean_request_can_miss", "Orbit.C11.pinned_tree_wedges"],
+        families=[("cancel", 120, 3000, 8)],
+        corr_fields={"values", "heads", "len"},
+        nontrivial=lambda lines: any(l.startswith("op cancel") or "ctx=cancelled" in l or l.startswith("op failget") for l in lines),
+        rule="1-3 replication requests per scenario, each cancelled or failing at a PRNG-chosen point: context already cancelled; cancelled while its worker is held just before asking for a slot (hook); cancelled while a block fetch is held at the gate; cancelled while a worker is held between fetch and join (hook); block unavailable; or not at all; after each request the replicator is run to quiescence (decided from its bookkeeping) and its counters printed; then an uncancelled Sync of the source's (possibly newer) heads must complete and list everything; non-trivial = at least one cancelled or failing request",
+        trusted_base=["Model/Replicator.lean transition system (hand-written, validated end-to-end); goroutine steps are atomic under the replicator mutex (assumed)", "wall-clock timeouts are modelled as cancellation at a point"],
+        assumptions=["the later request is issued after the aborted requests' Load calls have returned (Clean); otherwise at most two requests (known finding K1)"],
+    ),
     "C12": dict(
         module="OrbitModel.Properties.C12",
         theorems=["Orbit.C12.no_message_panics", "Orbit.C12.listener_survives_any_stream", "Orbit.C12.only_complete_heads_loaded",
@@ -171,6 +203,18 @@ _TIE = ("Lean 4 theorems about a hand-written model + correspondence harness: th
         "PRNG histories and the compiled Lean driver replays every operation through the model and evaluates the "
         "property's L1 predicate on the implementation's own observations")
 MANIFEST_TEXT = {
+    "C09": dict(
+        text="Kernel-checked theorem over a bus model of the instance: an event originating in one database (write, load-added, merged batch) leaves every other store of the instance exactly as it was (contents, index, status, emitted events, published messages), and whatever a store publishes carries its own address; the pinned tree's cross-talk is refuted by a decide-checked witness reproduced on the real stores before the fix: commit. The harness opens 2-4 databases on shared instances and checks isolation of contents, status, per-address event counters and announcement channels after every step.",
+        note="Trusted: Lean kernel + standard axioms; the bus model (broadcast to every listener; which listeners filter on what) is hand-written from base_store.go and validated by the multidb family; runtime delivery timing of the libp2p eventbus is sampled, not proved.",
+        technique="Lean 4 proof (listener filter case analysis over a broadcast model) with differential correspondence on multi-database instances"),
+    "C10": dict(
+        text="Kernel-checked theorems: for every cancellation-free history mixing rejected and foreign heads with valid ones in any position and any fetch order, re-announcing heads and running the replicator to quiescence lists every accepted reachable entry and no rejected one; a mixed batch merges every acceptable single-entry log whatever else it contains. Pinned-tree witnesses (batch aborted, valid entries never refetched) are decide-checked and were replayed on the real store before the fix: commit. The forge family checks on the real stores that after an honest re-announcement every acknowledged write is listed everywhere.",
+        note="Liveness is proved for the canonical fair scheduler (drain) with explicit fuel, safety (closure invariant, 'at rest means complete') for every schedule; the replicator model is hand-written and tied end-to-end (its bookkeeping counters are printed, not yet replayed step by step).",
+        technique="Lean 4 proof (transition-system invariants + termination measure) with differential correspondence on adversarial announcements"),
+    "C11": dict(
+        text="Kernel-checked theorems over the replicator transition system for EVERY earlier history (loads, cancellations at any point, fetch failures, any interleaving): the bookkeeping invariant and 'no hole is ever forgotten' hold in every reachable state; whenever it comes to rest with nothing to retry it is complete; once aborted requests have returned, ONE uncancelled request run to quiescence lists everything reachable; without that, at most two. Pinned-tree wedge witnesses are decide-checked and were replayed on the real code before the fix: commits (three defects repaired: orphaned queue item, failed fetch marked fetched, progress-channel deadlock). The cancel family drives the real replicator through hooks and gates at every cancellation point.",
+        note="Known finding K1 (listed, exhibited by the corpus on every run): a request racing with a still-unwinding pre-cancelled request can complete without the shared hash; the next request brings it. Goroutine steps are modelled as atomic under the replicator mutex; timeouts are cancellations at a point.",
+        technique="Lean 4 proof (inductive invariant over all schedules, potential-function termination) with hook/gate-driven differential harness"),
     "C12": dict(
         text="Kernel-checked theorems from the decode result onward: no decoded message (any mix of null, empty, partial heads) makes Sync panic, only complete heads are loaded, the outcome for a message does not depend on what preceded it; no 64-bit length prefix makes the frame reader panic and accepted lengths are within the limit, with the guard regenerated from the Go text on every run. The pinned tree is refuted by decide-checked witnesses replayed on the real code before the two fix: commits. The harness delivers structurally enumerated malformed messages on the topic and the direct channel and raw frames to the real stream handler; a panic kills the harness process and is attributed to the running scenario.",
         note="The bytes -> structure step of encoding/json / CBOR is observed, not modelled (partial there); trusted: Lean kernel + standard axioms, the extractor, the hand-written decode model validated by the garbage family.",
